@@ -12,7 +12,8 @@ FUNCTIONS += [N + "BinaryNode.__init__", N + "BinaryNode.emit", N + "BinaryNode.
 MIN_OBLIGATIONS = 8
 EXPLANATION = ("data_node_contract runs the real ByteNode/WordNode/LongNode/PointerNode emit and pc_after on a symbolic value (every integer, "
                "negative and over-wide included) and a symbolic in-window LoROM address; little-endian truncation and the layout size are "
-               "VCs discharged by z3.  Expression lists of ARBITRARY length: the loops of generate_db / generate_dw / generate_dl are cut with a per-iteration contract -- for the "
+               "VCs discharged by z3.  END TO END from the token list of a directive (.db/.dw/.dl/.pointer with 1, 2, 4 identifiers bound to any integers): the real parser, "
+               "code generator, expression evaluator and emit give the values in order, truncated little-endian.  Expression lists of ARBITRARY length: the loops of generate_db / generate_dw / generate_dl are cut with a per-iteration contract -- for the "
                "arbitrary expression of the list exactly one node is appended, of the directive's width class, evaluating exactly that expression (hence one value per "
                "expression, in list order); the parser side (parse_expression_list_inner, DataNode's copy loop) terminates and consumes the list (C15).  "
                "Text -> tokens, .ascii and .incbin (file system) are checked by the bounded stand-in.")
@@ -62,8 +63,29 @@ def shape_bin(B):
     return {"node": node, "resolver": res, "addr": addr, "content": content}
 
 
+def shape_directive(kind, n):
+    def sh(B):
+        res = shapes.resolver(B)
+        names = ["a", "b", "c", "d"][:n]
+        vals = [B.int("v_" + x) for x in names]
+        shapes.root_symbols(B, res, dict(zip(names, vals)))
+        items = [("KEYWORD", kind)]
+        for i, x in enumerate(names):
+            if i:
+                items.append(("COMMA", ","))
+            items.append(("IDENTIFIER", x))
+        items.append(("EOF", ""))
+        toks = [B.inst("a816.parse.tokens.Token", type=B.enum("a816.parse.tokens.TokenType", tt), value=v, position=None) for tt, v in items]
+        p = B.inst("a816.parse.parser.Parser", tokens=B.list(toks), pos=0, initial_state=None)
+        return {"p": p, "resolver": res, "addr": shapes.lorom_address(B), "kind": kind, "values": B.list(vals)}
+    return sh
+
+
 def cases(E):
-    cs = [Case(H + "data_node_contract", k, shape(k), target=FUNCTIONS) for k in ("db", "dw", "dl", "pointer")]
+    cs = [Case(H + "data_statement_bytes_contract", f".{k} with {n} values, from tokens", shape_directive(k, n), drop_overrides=["a816.parse.ast.expression.eval_expression"],
+               target=["a816.parse.parser_states.parse_keyword", "a816.parse.parser_states.parse_expression_list_inner", "a816.parse.codegen._code_gen"])
+          for k in ("db", "dw", "dl", "pointer") for n in (1, 2, 4)]
+    cs += [Case(H + "data_node_contract", k, shape(k), target=FUNCTIONS) for k in ("db", "dw", "dl", "pointer")]
     for k in ("db", "dw", "dl", "pointer"):
         for n in (0, 1, 3):
             cs.append(Case(H + "generate_data_contract", f"{k},{n} expressions", shape_gen(k, n),
@@ -79,6 +101,7 @@ def cases(E):
 
 
 OPTIONAL_CHECKS = {"generate_data_contract": ["node_kind", "in_order"],
+                   "data_statement_bytes_contract": ["value_in_list_order_le_truncated", "occupies_its_width"],
                    "generator_contract": ["enclosing_scope_current_again", "scope_cursor_consistent", "scopes_only_appended", "returns_a_list"]}
 QUICK_MUTANTS = 8
 
